@@ -177,8 +177,10 @@ func (rt *ResultTypeExpr) ViewHasAttribute(view, attr string) bool {
 // the underlying UserTypeExpr.
 func (rt *ResultTypeExpr) Finalize() {
 	rt.useExplicitView()
-	rt.ensureDefaultView()
+	// Finalize the type first so that the attributes inherited with Extend
+	// are part of the default view.
 	rt.UserTypeExpr.Finalize()
+	rt.ensureDefaultView()
 	seen := make(map[string]struct{})
 	walkAttribute(rt.AttributeExpr, func(_ string, att *AttributeExpr) error { // nolint: errcheck
 		if rt, ok := att.Type.(*ResultTypeExpr); ok {
